@@ -441,6 +441,19 @@ def sym_range(*args):
     return SymRange(*args)
 
 
+def sym_len(x):
+    """Bound to the module global ``len``: the length of a symbolic range is a symbolic integer."""
+    if type(x) is SymRange:
+        if type(x.step) is int and x.step == 1:
+            n = x.stop - x.start
+        else:
+            n = (x.stop - x.start + x.step - 1) // x.step
+        if builtins.isinstance(n, SymInt):
+            return _mk(z3.If(_lift(n) > 0, _lift(n), z3.IntVal(0)))
+        return max(0, n)
+    return builtins.len(x)
+
+
 class _RangeMeta(type):
     def __instancecheck__(cls, obj):
         return type(obj) in (builtins.range, SymRange)
@@ -576,9 +589,9 @@ def sym_isinstance(obj, cls):
 
 
 @contextlib.contextmanager
-def patched(modules, names=("isinstance", "range", "int")):
+def patched(modules, names=("isinstance", "range", "int", "len")):
     """Rebind module globals of the modules under test (no source edits); restored on exit."""
-    stub = {"isinstance": sym_isinstance, "range": RangeStub, "int": IntStub}
+    stub = {"isinstance": sym_isinstance, "range": RangeStub, "int": IntStub, "len": sym_len}
     saved = []
     for m in modules:
         for n in names:
@@ -837,7 +850,7 @@ class Engine:
         return _plain(v)
 
     # ---- exploration ----------------------------------------------------------------------------------
-    def explore(self, fn, modules=(), max_paths=2_000_000, stubs=("isinstance", "range", "int")):
+    def explore(self, fn, modules=(), max_paths=2_000_000, stubs=("isinstance", "range", "int", "len")):
         """Enumerate all feasible paths of fn(E).  ``modules`` get their globals rebound while a
         symbolic path runs and are untouched while the concrete replay runs."""
         global _engine
